@@ -20,6 +20,9 @@ if status:
 applied = subprocess.run(["git", "-C", "/repo", "apply", patch])
 if applied.returncode != 0:
     sys.exit("patch does not apply")
+import shutil, tempfile
+evidence_backup = tempfile.mkdtemp(prefix="evidence_backup_")
+shutil.copytree(os.path.join(HERE, "evidence"), os.path.join(evidence_backup, "evidence"))
 try:
     if baseline:
         done = subprocess.run([os.path.join(HERE, "tools", "baseline.py"), "/repo"], capture_output=True, text=True)
@@ -34,5 +37,9 @@ try:
         if done.returncode not in (0, 1):
             print(done.stdout[-2000:], done.stderr[-2000:])
 finally:
+    # runs against a patched tree must not leave their evidence behind
+    shutil.rmtree(os.path.join(HERE, "evidence"), ignore_errors=True)
+    shutil.copytree(os.path.join(evidence_backup, "evidence"), os.path.join(HERE, "evidence"))
+    shutil.rmtree(evidence_backup, ignore_errors=True)
     subprocess.run(["git", "-C", "/repo", "checkout", "--", "."])
     subprocess.run(["git", "-C", "/repo", "clean", "-fdq", "tests/"])
